@@ -118,6 +118,11 @@ func structCases(c *runner.Ctx, k int, kd kindT) {
 		// the first grouped member also carries required (before the group rule): it stays a member of its group
 		structCasesV(c, k, kd, "required,")
 	}
+	if k <= 3 && kd.name == "string" {
+		// every grouped member carries a quoted rule of its own in front of the group rule (the group rule is the last
+		// thing in a rule list that holds quotes)
+		structCasesV(c, k, kd, "\x00quoted")
+	}
 }
 
 func structCasesV(c *runner.Ctx, k int, kd kindT, firstPrefix string) {
@@ -139,7 +144,9 @@ func structCasesV(c *runner.Ctx, k int, kd kindT, firstPrefix string) {
 			g /= len(groupMenu)
 			f := reflect.StructField{Name: fmt.Sprintf("F%d", i), Type: kd.t}
 			if r != "" {
-				if len(ngroups) == 0 {
+				if firstPrefix == "\x00quoted" {
+					f.Tag = reflect.StructTag(fmt.Sprintf(`valid:"in=('x'/'y'/'q,%d'),%s"`, i, r))
+				} else if len(ngroups) == 0 {
 					f.Tag = reflect.StructTag(`valid:"` + firstPrefix + r + `"`)
 				} else {
 					f.Tag = reflect.StructTag(`valid:"` + r + `"`)
